@@ -11,7 +11,7 @@ PROPERTY = 'C05'
 NEED_C = True
 RULE = ('Series pairs x window x penalty x psi x max_step x inner distance x ndim (no max_dist). Entry points: best_path on '
         'a Python matrix (default call for penalty 0; internal-representation matrix + penalty=adj_penalty otherwise, as '
-        'its docstring prescribes), best_path on a C full matrix, best_path2, dtw.warping_path, dtw.warping_path_fast, '
+        'its docstring prescribes), best_path on a C full matrix, best_path2, dtw.warping_path (use_c False and True), dtw.warping_path_fast, '
         'dtw_ndim.warping_path, dtw_cc.warping_path(_ndim), dtw_cc.best_path_compact on a compact matrix, custom start '
         'cell (Python row/col and C dtw_best_path_customstart through ctypes into index arrays of exactly l1+l2 entries '
         'with canaries), dtw.warp. Oracle (any optimal path accepted): contiguous steps (1,1)/(1,0)/(0,1), in band, within '
@@ -144,6 +144,19 @@ def run(case):
         else:
             path, d = got
             paths_seen.append(_check_path(res, 'c.warping_path_fast', case, path, float(d), refd))
+    # the public route through the C engine: warping_path(use_c=True) computes a C matrix and traces it in Python
+    got, exc = libcall(dtw.warping_path, a1, a2, include_distance=True, use_ndim=(nd > 1), use_c=True, **kw)
+    if exc:
+        res.fail('c.warping_path(use_c):' + exc, 'warping_path(use_c=True) raised')
+    else:
+        path, d = got
+        paths_seen.append(_check_path(res, 'c.warping_path(use_c)', case, path, float(d), refd))
+    if nd > 1:
+        got, exc = libcall(dtw_ndim.warping_path, a1, a2, use_c=True, **kw)
+        if exc:
+            res.fail('c.ndim.warping_path(use_c):' + exc, 'dtw_ndim.warping_path(use_c=True) raised')
+        else:
+            _check_path(res, 'c.ndim.warping_path(use_c)', case, got, None, refd)
     if nd > 1:
         got, exc = libcall(dtw_cc.warping_path_ndim, a1, a2, nd, True, **skw)
         if exc:
